@@ -968,10 +968,10 @@ Lemma unify_args_uf_vin P pvs : forall s cs u,
   svars_in P s -> Forall (vin P) pvs -> unify_args_uf s pvs cs = Some u -> svars_in P u.
 Proof.
   induction pvs as [|pv pvs IH]; intros s [|c cs] u Hs Hp H; cbn [unify_args_uf] in H; try discriminate.
-  - congruence.
+  - injection H as <-. exact Hs.
   - inversion Hp as [|? ? Hpv Hp']; subst.
     destruct (unify_uf s pv (VConst c)) as [s1|] eqn:E; [|discriminate].
-    eapply IH; [|exact Hp'|exact H]. eapply unify_uf_vin; [exact Hs|exact Hpv|exact I|exact E].
+    eapply IH; [|exact Hp'|exact H]. exact (unify_uf_vin P s pv (VConst c) s1 Hs Hpv I E).
 Qed.
 
 (* variables that occur as a whole argument / side (what is inside a function application
@@ -1032,7 +1032,7 @@ Lemma solve_uf_vin P strict Sneg sel body : forall k sols R,
   solve_uf strict Sneg sel k body sols = Some R -> Forall (svars_in P) R.
 Proof.
   induction body as [|p b IH]; intros k sols R Hs Hb H; cbn [solve_uf] in H.
-  - congruence.
+  - injection H as <-. exact Hs.
   - destruct (flat_map_opt (step_uf strict Sneg (sel k) p) sols) as [sols'|] eqn:E; [|discriminate].
     destruct (flat_map_opt_spec _ _ _ E) as [_ Hin].
     eapply IH; [| |exact H].
@@ -1085,10 +1085,10 @@ Proof.
     apply (IH ((v, c) :: L) (upd rho v c) L'); auto.
     + intros k x Hin. destruct (Hd k x Hin) as [A B]. split.
       * intros Hk. apply A. right. exact Hk.
-      * destruct x as [d|w]; simpl in *; auto. intros Hw. apply B. right. exact Hw.
+      * destruct x as [d|w]; [exact I|]. cbn [vin map fst] in *. intros Hw. apply B. right. exact Hw.
     + apply models_upd; auto. intros k x Hin. destruct (Hd k x Hin) as [A B]. split.
       * intros ->. apply A. left. reflexivity.
-      * destruct x as [d|w]; simpl in *; auto. intros ->. apply B. left. reflexivity.
+      * destruct x as [d|w]; [exact I|]. cbn [vin map fst] in *. intros ->. apply B. left. reflexivity.
     + intros w d. cbn [lookup]. unfold upd. destruct (w =? v); [intros [= <-]; auto | auto].
 Qed.
 
@@ -1099,7 +1099,8 @@ Proof.
   intros Hd Hm H. unfold emit_head_uf in H. unfold ghead.
   destruct (eval_args_uf s (aargs (chead c))) as [pvs|] eqn:Ea; [|discriminate].
   destruct (run_let_uf s [] (clet c)) as [L|] eqn:El; [|discriminate].
-  destruct (run_let_uf_sound s (clet c) [] rho L Hd Hm (fun v c0 (Hx : lookup v [] = Some c0) => match Hx with eq_refl => I end |> fun _ => eq_refl) El) as (rho' & Hg & Hm' & HL).
+  assert (H0 : forall v c0, lookup v [] = Some c0 -> rho v = c0) by (intros ? ? Hx; discriminate Hx).
+  destruct (run_let_uf_sound s (clet c) [] rho L Hd Hm H0 El) as (rho' & Hg & Hm' & HL).
   rewrite Hg.
   destruct (map_opt (ground_value_uf s L) pvs) as [cs|] eqn:Eg; [|discriminate]. injection H as <-.
   rewrite (eval_args_uf_sound _ _ Hm' _ _ Ea).
@@ -1112,4 +1113,310 @@ Proof.
       pose proof (urow_get_sound rho' s L Hm' HL v) as Hu. destruct (urow_get s L v); [|discriminate].
       simpl in Hu. congruence. }
   rewrite E. reflexivity.
+Qed.
+
+(* ---- eliminating an alias variable: W is replaced by V everywhere *)
+Fixpoint sub_term (W V : Z) (t : term) : term :=
+  match t with
+  | TVar v => TVar (if Z.eqb v W then V else v)
+  | TConst c => t
+  | TApp f args => TApp f (map (sub_term W V) args)
+  end.
+Definition sub_atom (W V : Z) (a : atom) : atom := mkAtom (apred a) (map (sub_term W V) (aargs a)).
+Definition sub_premise (W V : Z) (p : premise) : premise :=
+  match p with
+  | PAtom a => PAtom (sub_atom W V a)
+  | PNeg a => PNeg (sub_atom W V a)
+  | PEq l r => PEq (sub_term W V l) (sub_term W V r)
+  | PIneq l r => PIneq (sub_term W V l) (sub_term W V r)
+  | PCmp op l r => PCmp op (sub_term W V l) (sub_term W V r)
+  end.
+(* the variable a let-statement defines is not an occurrence *)
+Definition sub_clause (W V : Z) (c : clause) : clause :=
+  mkClause (sub_atom W V (chead c)) (map (sub_premise W V) (cbody c))
+           (map (fun vt => (fst vt, sub_term W V (snd vt))) (clet c)).
+
+Lemma geval_sub rho W V : rho W = rho V -> forall t, geval rho (sub_term W V t) = geval rho t.
+Proof.
+  intros He. induction t as [v|c|f args IH] using term_ind2.
+  - simpl. destruct (Z.eqb_spec v W); congruence.
+  - reflexivity.
+  - cbn [sub_term]. rewrite !geval_app.
+    assert (E : gargs rho (map (sub_term W V) args) = gargs rho args).
+    { unfold gargs. induction IH as [|a args Ha _ IHl]; [reflexivity|]. cbn [map map_opt]. rewrite Ha, IHl. reflexivity. }
+    rewrite E. reflexivity.
+Qed.
+
+Lemma gargs_sub rho W V ts : rho W = rho V -> gargs rho (map (sub_term W V) ts) = gargs rho ts.
+Proof.
+  intros He. unfold gargs. induction ts as [|t ts IH]; [reflexivity|]. cbn [map map_opt].
+  rewrite (geval_sub rho W V He), IH. reflexivity.
+Qed.
+
+Lemma gholds_sub Sneg Spos rho W V p : rho W = rho V ->
+  (gholds Sneg Spos rho (sub_premise W V p) <-> gholds Sneg Spos rho p).
+Proof.
+  intros He. destruct p as [a|a|l r|l r|op l r]; cbn [gholds sub_premise sub_atom aargs apred];
+    rewrite ?(gargs_sub rho W V _ He), ?(geval_sub rho W V He); tauto.
+Qed.
+
+Lemma gsat_sub Sneg sel rho W V body : rho W = rho V -> forall k,
+  (gsat Sneg sel k rho (map (sub_premise W V) body) <-> gsat Sneg sel k rho body).
+Proof.
+  intros He. induction body as [|p b IH]; intros k; cbn [map gsat]; [tauto|].
+  rewrite (gholds_sub _ _ _ _ _ _ He), IH. tauto.
+Qed.
+
+Lemma gsat_in Sneg sel rho body : forall k p, gsat Sneg sel k rho body -> In p body -> exists i, gholds Sneg (sel i) rho p.
+Proof.
+  induction body as [|q b IH]; intros k p H Hin; [destruct Hin|]. destruct H as [Hq Hb].
+  destruct Hin as [->|Hin]; [eauto | eapply IH; eauto].
+Qed.
+
+Lemma glet_sub W V stmts : forall rho, rho W = rho V -> ~ In W (map fst stmts) -> ~ In V (map fst stmts) ->
+  glet rho (map (fun vt => (fst vt, sub_term W V (snd vt))) stmts) = glet rho stmts.
+Proof.
+  induction stmts as [|[v t] rest IH]; intros rho He HW HV; cbn [map glet fst snd]; [reflexivity|].
+  rewrite (geval_sub rho W V He). destruct (geval rho t) as [c|]; [|reflexivity].
+  apply IH.
+  - unfold upd. destruct (Z.eqb_spec W v) as [->|_]; [exfalso; apply HW; left; reflexivity|].
+    destruct (Z.eqb_spec V v) as [->|_]; [exfalso; apply HV; left; reflexivity | exact He].
+  - intros H. apply HW. right. exact H.
+  - intros H. apply HV. right. exact H.
+Qed.
+
+Lemma glet_keeps stmts : forall rho rho' v, glet rho stmts = Some rho' -> ~ In v (map fst stmts) -> rho' v = rho v.
+Proof.
+  induction stmts as [|[w t] rest IH]; intros rho rho' v H Hv; cbn [glet] in H.
+  - congruence.
+  - destruct (geval rho t) as [c|]; [|discriminate]. rewrite (IH _ _ _ H).
+    + unfold upd. destruct (Z.eqb_spec v w) as [->|_]; [exfalso; apply Hv; left; reflexivity | reflexivity].
+    + intros Hin. apply Hv. right. exact Hin.
+Qed.
+
+Lemma ghead_sub rho W V c : rho W = rho V -> ~ In W (map fst (clet c)) -> ~ In V (map fst (clet c)) ->
+  ghead rho (sub_clause W V c) = ghead rho c.
+Proof.
+  intros He HW HV. unfold ghead. cbn [sub_clause clet chead sub_atom aargs apred].
+  rewrite (glet_sub W V _ rho He HW HV). destruct (glet rho (clet c)) as [rho'|] eqn:E; [|reflexivity].
+  rewrite gargs_sub; [reflexivity|]. rewrite (glet_keeps _ _ _ W E HW), (glet_keeps _ _ _ V E HV). exact He.
+Qed.
+
+Lemma dvar_sub W V t v : In v (dvar (sub_term W V t)) -> (v = V /\ In W (dvar t)) \/ (v <> W /\ In v (dvar t)).
+Proof.
+  destruct t as [x|c|f args]; simpl; try tauto.
+  destruct (Z.eqb_spec x W) as [->|Hx]; intros [<-|[]]; [left | right]; auto.
+Qed.
+
+Lemma pvars_sub W V p v : In v (pvars (sub_premise W V p)) -> (v = V /\ In W (pvars p)) \/ (v <> W /\ In v (pvars p)).
+Proof.
+  assert (Hl : forall ts, In v (flat_map dvar (map (sub_term W V) ts)) ->
+                          (v = V /\ In W (flat_map dvar ts)) \/ (v <> W /\ In v (flat_map dvar ts))).
+  { induction ts as [|t ts IH]; cbn [map flat_map]; [tauto|]. rewrite !in_app_iff.
+    intros [H|H]; [apply dvar_sub in H | apply IH in H]; tauto. }
+  destruct p as [a|a|l r|l r|op l r]; cbn [pvars sub_premise sub_atom aargs]; try apply Hl;
+    rewrite !in_app_iff; intros [H|H]; apply dvar_sub in H; tauto.
+Qed.
+
+Lemma bvars_sub W V body v : In v (bvars (map (sub_premise W V) body)) ->
+  (v = V /\ In W (bvars body)) \/ (v <> W /\ In v (bvars body)).
+Proof.
+  unfold bvars. induction body as [|p b IH]; cbn [map flat_map]; [tauto|]. rewrite !in_app_iff.
+  intros [H|H]; [apply pvars_sub in H | apply IH in H]; tauto.
+Qed.
+
+(* ---- 4b. a strict run computes the declarative reading of the clause; eliminating an
+   alias variable does not change the derived facts *)
+Lemma svars_in_nil P : Forall (svars_in P) [[]].
+Proof. constructor; [intros k x []|constructor]. Qed.
+
+Lemma uwf_start : Forall uwf [[]].
+Proof. repeat constructor. Qed.
+
+Theorem eval_clause_uf_declarative Sneg sel c fs :
+  (forall v, In v (bvars (cbody c)) -> ~ In v (map fst (clet c))) ->
+  eval_clause_uf true Sneg sel c = Some fs ->
+  forall f, In f fs <-> exists rho, gsat Sneg sel 0 rho (cbody c) /\ ghead rho c = Some f.
+Proof.
+  intros Hlet H f. unfold eval_clause_uf in H.
+  destruct (solve_uf true Sneg sel 0 (cbody c) [[]]) as [R|] eqn:E; [|discriminate].
+  destruct (map_opt_spec _ _ _ H) as [Hdef Hin].
+  assert (Hd : forall t, In t R -> svars_in (fun w => ~ In w (map fst (clet c))) t).
+  { intros t Ht. pose proof (solve_uf_vin (fun w => In w (bvars (cbody c))) _ _ _ _ _ _ _ (svars_in_nil _) (fun v Hv => Hv) E) as Hv.
+    pose proof (proj1 (Forall_forall _ _) Hv t Ht) as Hvt. intros k x Hkx. destruct (Hvt k x Hkx) as [A B].
+    split; [auto|]. destruct x as [d|w]; simpl in *; auto. }
+  rewrite Hin. split.
+  - intros (t & Ht & He). destruct (solve_uf_props _ _ _ _ _ _ _ uwf_start E t Ht) as [Hw _].
+    exists (canon t). split.
+    + apply (proj1 (solve_uf_models _ _ _ _ _ _ E (canon t)) (ex_intro _ t (conj Ht (canon_models t Hw)))).
+    + eapply emit_head_uf_sound; eauto using canon_models.
+  - intros (rho & Hg & Hh).
+    destruct (proj2 (solve_uf_models _ _ _ _ _ _ E rho)) as (t & Ht & Hm).
+    { split; [exists []; split; [left; auto | apply models_nil] | exact Hg]. }
+    exists t. split; auto. destruct (Hdef t Ht) as (f2 & Hf2).
+    rewrite (emit_head_uf_sound rho c t f2 (Hd t Ht) Hm Hf2) in Hh. congruence.
+Qed.
+
+(* a derived fact has a witnessing valuation that moreover treats a variable W, which the
+   body does not mention, like any chosen V *)
+Lemma eval_clause_uf_witness Sneg sel c fs W V :
+  (forall v, In v (bvars (cbody c)) -> ~ In v (map fst (clet c))) ->
+  ~ In W (bvars (cbody c)) ->
+  eval_clause_uf true Sneg sel c = Some fs ->
+  forall f, In f fs -> exists rho, rho W = rho V /\ gsat Sneg sel 0 rho (cbody c) /\ ghead rho c = Some f.
+Proof.
+  intros Hlet HW H f Hf. unfold eval_clause_uf in H.
+  destruct (solve_uf true Sneg sel 0 (cbody c) [[]]) as [R|] eqn:E; [|discriminate].
+  destruct (map_opt_spec _ _ _ H) as [_ Hin]. apply Hin in Hf as (t & Ht & He).
+  pose proof (solve_uf_vin (fun w => In w (bvars (cbody c))) _ _ _ _ _ _ _ (svars_in_nil _) (fun v Hv => Hv) E) as Hv.
+  pose proof (proj1 (Forall_forall _ _) Hv t Ht) as Hvt.
+  destruct (solve_uf_props _ _ _ _ _ _ _ uwf_start E t Ht) as [Hw _].
+  destruct (Z.eq_dec W V) as [->|Hne].
+  - exists (canon t). split; [reflexivity|]. split.
+    + apply (proj1 (solve_uf_models _ _ _ _ _ _ E (canon t)) (ex_intro _ t (conj Ht (canon_models t Hw)))).
+    + eapply emit_head_uf_sound; eauto using canon_models.
+      intros k x Hkx. destruct (Hvt k x Hkx) as [A B]. split; [auto|]. destruct x as [d|w]; simpl in *; auto.
+  - set (rho := upd (canon t) W (canon t V)).
+    assert (Hm : models rho t).
+    { apply models_upd; [|apply canon_models; auto]. intros k x Hkx. destruct (Hvt k x Hkx) as [A B]. split.
+      - intros ->. contradiction.
+      - destruct x as [d|w]; [exact I|]. simpl in *. intros ->. contradiction. }
+    exists rho. split; [|split].
+    + unfold rho, upd. rewrite Z.eqb_refl. destruct (Z.eqb_spec V W); [congruence | reflexivity].
+    + apply (proj1 (solve_uf_models _ _ _ _ _ _ E rho) (ex_intro _ t (conj Ht Hm))).
+    + eapply emit_head_uf_sound; eauto.
+      intros k x Hkx. destruct (Hvt k x Hkx) as [A B]. split; [auto|]. destruct x as [d|w]; simpl in *; auto.
+Qed.
+
+Theorem alias_elimination Sneg sel c W V fs' fs :
+  W <> V ->
+  In (PEq (TVar W) (TVar V)) (cbody c) \/ In (PEq (TVar V) (TVar W)) (cbody c) ->
+  (forall v, In v (bvars (cbody c)) -> ~ In v (map fst (clet c))) ->
+  eval_clause_uf true Sneg sel c = Some fs' ->
+  eval_clause_uf true Sneg sel (sub_clause W V c) = Some fs ->
+  forall f, In f fs' <-> In f fs.
+Proof.
+  intros Hne Heq Hlet E' E f.
+  assert (HWV : In W (bvars (cbody c)) /\ In V (bvars (cbody c))).
+  { unfold bvars. split; apply in_flat_map; destruct Heq as [H|H];
+      (eexists; split; [exact H|]); simpl; auto. }
+  destruct HWV as [HWb HVb].
+  assert (HlW : ~ In W (map fst (clet c))) by auto. assert (HlV : ~ In V (map fst (clet c))) by auto.
+  assert (Hlet2 : forall v, In v (bvars (cbody (sub_clause W V c))) -> ~ In v (map fst (clet (sub_clause W V c)))).
+  { cbn [sub_clause cbody clet]. rewrite map_map. cbn [fst]. intros v Hv.
+    apply bvars_sub in Hv as [[-> _]|[_ Hv]]; auto. }
+  assert (HW2 : ~ In W (bvars (cbody (sub_clause W V c)))).
+  { cbn [sub_clause cbody]. intros Hv. apply bvars_sub in Hv as [[-> _]|[Hc _]]; congruence. }
+  assert (Hmodel : forall rho, gsat Sneg sel 0 rho (cbody c) -> rho W = rho V).
+  { intros rho Hg. destruct Heq as [H|H]; destruct (gsat_in _ _ _ _ _ _ Hg H) as (i & c0 & Hl & Hr); simpl in *; congruence. }
+  split.
+  - intros Hf. apply (eval_clause_uf_declarative _ _ _ _ Hlet E' f) in Hf as (rho & Hg & Hh).
+    pose proof (Hmodel rho Hg) as He.
+    apply (eval_clause_uf_declarative _ _ _ _ Hlet2 E f). exists rho. split.
+    + cbn [sub_clause cbody]. apply gsat_sub; auto.
+    + rewrite ghead_sub; auto.
+  - intros Hf. destruct (eval_clause_uf_witness _ _ _ _ W V Hlet2 HW2 E f Hf) as (rho & He & Hg & Hh).
+    apply (eval_clause_uf_declarative _ _ _ _ Hlet E' f). exists rho. split.
+    + cbn [sub_clause cbody] in Hg. exact (proj1 (gsat_sub Sneg sel rho W V (cbody c) He 0%nat) Hg).
+    + rewrite ghead_sub in Hh; auto.
+Qed.
+
+(* ---- a strict run that succeeds is the run of the Go-shaped evaluator *)
+Lemma step_uf_strict_lax Sneg Spos p s us : step_uf true Sneg Spos p s = Some us -> step_uf false Sneg Spos p s = Some us.
+Proof.
+  destruct p as [a|a|l r|l r|op l r]; cbn [step_uf step_pure_uf andb]; auto.
+  - destruct (eval_args_uf s (aargs a)); auto. destruct (negb _); [discriminate | auto].
+  - destruct (eval_term_uf s l); auto. destruct (eval_term_uf s r); auto. destruct (negb _); [discriminate | auto].
+Qed.
+
+Lemma flat_map_opt_ref2 {A B} (f g : A -> option (list B)) l R :
+  (forall a r, f a = Some r -> g a = Some r) -> flat_map_opt f l = Some R -> flat_map_opt g l = Some R.
+Proof.
+  intros H. revert R. induction l as [|a l IH]; intros R; simpl; [auto|].
+  destruct (f a) as [r|] eqn:E; [|discriminate]. rewrite (H _ _ E).
+  destruct (flat_map_opt f l) as [r'|]; [|discriminate]. rewrite (IH _ eq_refl). auto.
+Qed.
+
+Lemma solve_uf_strict_lax Sneg sel body : forall k sols R,
+  solve_uf true Sneg sel k body sols = Some R -> solve_uf false Sneg sel k body sols = Some R.
+Proof.
+  induction body as [|p b IH]; intros k sols R H; cbn [solve_uf] in *; [exact H|].
+  destruct (flat_map_opt (step_uf true Sneg (sel k) p) sols) as [sols'|] eqn:E; [|discriminate].
+  rewrite (flat_map_opt_ref2 _ (step_uf false Sneg (sel k) p) _ _ (fun s us Hs => step_uf_strict_lax _ _ _ _ _ Hs) E).
+  auto.
+Qed.
+
+Lemma eval_clause_uf_strict_lax Sneg sel c fs :
+  eval_clause_uf true Sneg sel c = Some fs -> eval_clause_uf false Sneg sel c = Some fs.
+Proof.
+  unfold eval_clause_uf. destruct (solve_uf true Sneg sel 0 (cbody c) [[]]) as [R|] eqn:E; [|discriminate].
+  rewrite (solve_uf_strict_lax _ _ _ _ _ _ E). auto.
+Qed.
+
+(* ---- the C01 theorem about finished evaluations, for the union-find evaluator *)
+From MV Require Import Datalog.StrataProofs.
+
+Lemma eval_program_uf_exact fuel P layers store init Res :
+  valid_stratification P layers ->
+  eval_program fuel P layers store init <> EvalError ->
+  eval_program_uf false fuel P layers store init = Ok Res ->
+  forall f, In f Res <-> slfp P layers (fun g => In g (add_all store init)) f.
+Proof.
+  intros Hv Hne H.
+  destruct (eval_program fuel P layers store init) as [Res'| |] eqn:E; [| congruence |].
+  - rewrite (eval_program_uf_conservative _ _ _ _ _ _ E) in H by discriminate. injection H as <-.
+    exact (eval_program_exact fuel P layers store init Res' Hv E).
+  - rewrite (eval_program_uf_conservative _ _ _ _ _ _ E) in H by discriminate. discriminate.
+Qed.
+
+(* ================= 5. the Go-shaped find (chain following, fuel = number of bindings)
+   returns what the one-pass resolve returns, on every substitution the evaluator builds *)
+Lemma ufind_fuel_eq n s v :
+  ufind_fuel n s v = match ulookup v s with
+                     | None => VVar v
+                     | Some (VConst c) => VConst c
+                     | Some (VVar w) => match n with O => VVar w | S n' => ufind_fuel n' s w end
+                     end.
+Proof. destruct n; reflexivity. Qed.
+
+Lemma ufind_step k x s : uwf ((k, x) :: s) -> forall n v,
+  ufind_fuel n s v = resolve s v -> ufind_fuel (S n) ((k, x) :: s) v = resolve ((k, x) :: s) v.
+Proof.
+  intros Hw1.
+  assert (Hw : uwf s) by (inversion Hw1; auto).
+  assert (Hk : resolve s k = VVar k) by (inversion Hw1; auto).
+  assert (Hkk : ulookup k s = None) by (apply uwf_root_no_key; auto).
+  assert (Hx : forall w m, x = VVar w -> ufind_fuel m ((k, x) :: s) w = VVar w).
+  { intros w m ->. inversion Hw1; subst. rewrite ufind_fuel_eq. cbn [ulookup].
+    destruct (Z.eqb_spec w k); [congruence|]. rewrite (uwf_root_no_key s Hw w); auto. }
+  assert (Hkcase : forall n, ufind_fuel (S n) ((k, x) :: s) k = resolve ((k, x) :: s) k).
+  { intros n. rewrite ufind_fuel_eq, resolve_cons, Hk. cbn [ulookup thru]. rewrite !Z.eqb_refl.
+    destruct x as [c|w]; [reflexivity|]. exact (Hx w n eq_refl). }
+  assert (Hnk : forall v, v <> k -> ulookup v ((k, x) :: s) = ulookup v s).
+  { intros v Hvk. cbn [ulookup]. destruct (Z.eqb_spec v k); [contradiction | reflexivity]. }
+  induction n as [|n IH]; intros v Hv; (destruct (Z.eqb_spec v k) as [->|Hvk]; [apply Hkcase|]);
+    rewrite ufind_fuel_eq, resolve_cons, (Hnk v Hvk); rewrite ufind_fuel_eq in Hv.
+  - destruct (ulookup v s) as [[c|w]|] eqn:E.
+    + rewrite <- Hv. reflexivity.
+    + (* no fuel on s and still the right answer: w is a root of s *)
+      rewrite <- Hv. cbn [thru].
+      assert (Hr : resolve s w = VVar w).
+      { pose proof (uwf_closed s Hw v (VVar w) (ulookup_in _ _ _ E)) as Hc. simpl in Hc. congruence. }
+      rewrite ufind_fuel_eq. destruct (Z.eqb_spec w k) as [->|Hwk].
+      * cbn [ulookup]. rewrite Z.eqb_refl. destruct x; reflexivity.
+      * rewrite (Hnk w Hwk), (uwf_root_no_key s Hw w Hr). reflexivity.
+    + rewrite <- Hv. cbn [thru]. destruct (Z.eqb_spec v k); congruence.
+  - destruct (ulookup v s) as [[c|w]|] eqn:E.
+    + rewrite <- Hv. reflexivity.
+    + pose proof (uwf_closed s Hw v (VVar w) (ulookup_in _ _ _ E)) as Hc. simpl in Hc.
+      rewrite (IH w) by congruence. rewrite resolve_cons, Hc. reflexivity.
+    + rewrite <- Hv. cbn [thru]. destruct (Z.eqb_spec v k); congruence.
+Qed.
+
+Theorem ufind_resolve s : uwf s -> forall v, ufind s v = resolve s v.
+Proof.
+  unfold ufind. intros Hw. induction Hw as [|k c s Hw IH Hk|k w s Hw IH Hk Hr Hne]; intros v.
+  - reflexivity.
+  - apply (ufind_step k (VConst c) s); [constructor; auto | apply IH].
+  - apply (ufind_step k (VVar w) s); [constructor; auto | apply IH].
 Qed.
